@@ -37,7 +37,7 @@ ASSUMPTIONS = [
     "advertised defaults of virtual (nested-attribute) parameters are documentation only and are not compared with behaviour",
     "a signature that advertises **overflow has no 'outside' keywords",
 ]
-PROFILE = dict(grammar.PROFILES["data_plain"], with_v=True, flags=False, invalidation=False, max_attrs=6, frozen_nested=True)
+PROFILE = dict(grammar.PROFILES["data_plain"], with_v=True, flags=False, invalidation=False, max_attrs=6, frozen_nested=True, cached_props=True)
 NESTED_ATTRS = {"U": {"a": ["int"], "b": ["str"]}, "N": {"k": ["str"], "v": ["int"], "notes": ["list", ["str"]]}, "V": {"w": ["int"]}}
 GOOD = {"int": [4, 0], "str": ["p", ""], "list": [["list", ["n"]], ["list", ["m", "n"]]]}
 OUTSIDE = ["zzz", "h", "opts", "_private", "_inplce", "_iff", "bogus_attr"]
